@@ -74,6 +74,15 @@ def cases(tier, seed):
                         add("ptranspose.index", dict(sys=list(S), rdims=d, cdims=d, sysform="list", dimform="list", entries="sym"), "partial_transpose/sym")
                     if N <= 16 and n >= 2:
                         add("ptranspose.cvxpy", dict(sys=list(S), dims=d, var="complex" if size % 2 else "real", seed=seed), "partial_transpose/cvxpy")
+                        if N <= 8:
+                            # other kinds of variable (a Hermitian variable's lower triangle is the conjugate of the upper one) and other forms of `sys`
+                            for var in ("hermitian", "symmetric"):
+                                add("ptranspose.cvxpy", dict(sys=list(S), dims=d, var=var, seed=seed), "partial_transpose/cvxpy-%s" % var)
+                            if size == 1:
+                                for var in ("complex", "hermitian"):
+                                    add("ptranspose.cvxpy", dict(sys=list(S), dims=d, var=var, seed=seed, sysform="int"), "partial_transpose/cvxpy-int-sys")
+                            else:
+                                add("ptranspose.cvxpy", dict(sys=list(S), dims=d, var="complex", seed=seed, sysform="array"), "partial_transpose/cvxpy-array-sys")
     # rectangular: every local dimension at least 2
     for n in (2, 3):
         for rd in itertools.product([2, 3], repeat=n):
@@ -118,6 +127,11 @@ def cases(tier, seed):
             if dA == dB:
                 add("realign.index", dict(rdims=[dA, dB], cdims=[dA2, dB2], dimform="omitted"), "realignment/omitted")
                 add("realign.index", dict(rdims=[dA, dB], cdims=[dA2, dB2], dimform="scalar"), "realignment/scalar")
+    # `sys` omitted: the second subsystem (index 1) is transposed, whatever the number of subsystems listed in `dim`
+    for d in ([2, 2], [2, 3], [3, 2], [2, 3, 2], [3, 2, 2], [2, 2, 3, 2], [1, 3, 2]):
+        add("ptranspose.index", dict(sys=[1], rdims=d, cdims=d, sysform="list", dimform="list", sys_omitted=True), "partial_transpose/sys-omitted-dim-given")
+        add("ptranspose.index", dict(sys=[1], rdims=d, cdims=d, sysform="list", dimform="array", sys_omitted=True), "partial_transpose/sys-omitted-dim-given")
+    add("ptranspose.index", dict(sys=[1], rdims=[2, 3], cdims=[3, 2], sysform="list", dimform="2row", sys_omitted=True), "partial_transpose/sys-omitted-dim-given")
     return out
 
 
